@@ -203,6 +203,6 @@ func init() {
 		Sweep:    p3.Sweep,
 		Real:     p3.Real, Stub: p3.Stub,
 		Assumptions: []string{"8-bit octets and the length of reply lines are not judged", "the expected number of replies is computed from the replies themselves (354, 334, LMTP recipient count, closing notice)", "enhanced status codes are required on the last line of a reply"},
-		QuickRuns:   60000, ThoroughRuns: 3000000,
+		QuickRuns:   250000, ThoroughRuns: 6000000,
 	})
 }
